@@ -73,13 +73,24 @@ def find_poly(v):
         if at is None:
             return cur, chain
         if at.kind == 'app' and at.name == 'ite':
-            # decision tree on the discriminant of sign(P)
-            leaves = dtab.b_leaves(cur)
+            # decision tree on the discriminant of sign(P): only the conditions of the tree itself (not those inside P)
+            leaves = {}
+
+            def _cond_leaves(c):
+                if c.op in ('cmp', 'atom'):
+                    leaves[c.key()] = c
+                elif c.op != 'const':
+                    for a_ in c.args:
+                        _cond_leaves(a_)
+            from .util import cases as _cases
+            for _conds, _leaf in _cases(cur):
+                for c_ in _conds:
+                    _cond_leaves(c_)
             subj = None
             for l in leaves.values():
                 d = dtab.is_discr_eq(l)
                 if d is None:
-                    return None, chain
+                    return (cur if chain else None), chain          # a conditional that is not a match on the sign: handed back as it is
                 subj = d[0] if subj is None else subj
                 if d[0].id != subj.id:
                     return None, chain
@@ -98,6 +109,111 @@ def find_poly(v):
             continue
         return cur, chain
     return None, chain
+
+
+def gated_identity(poly, spec):
+    """The determinant is assembled under data-dependent conditions (`if v[k] != 0 { determinant -= v[k] * minor }`): for every feasible combination
+    of the conditions the assembled polynomial must equal the lifted determinant GIVEN those conditions — a term may be skipped exactly when its
+    factor vanishes.  Conditions are equalities `p == 0` with p a coordinate difference (x_i - a_i: x_i is replaced by a_i) or the lifted coordinate
+    |x - a|^2 of one point (over the reals: x = a).  -> (ok, detail), or None when the value is not of that form."""
+    import itertools
+    leaves = [l for l in dtab.b_leaves(poly).values()]
+    if not leaves or len(leaves) > 6:
+        return None
+    syms = {}
+    for n in PTS:
+        for i in range(3):
+            syms['%s%d' % (n, i)] = RF.sym('%s%d' % (n, i))
+    norms = {n: sum(((syms['%s%d' % (n, i)] - syms['a%d' % i]) ** 2 for i in range(3)), RF.const(0)) for n in 'bcdv'}
+    eqs = []
+    for l in leaves:
+        if l.op != 'cmp' or l.args[0] not in ('==', '!='):
+            return None
+        z = as_rf(l.args[1]) - as_rf(l.args[2])
+        kind = None
+        for nm, sy in syms.items():
+            if nm[0] != 'a' and ((z - sy + syms['a' + nm[1]]).is_zero() or (z + sy - syms['a' + nm[1]]).is_zero()):
+                kind = ('lin', nm)
+        for n, nz in norms.items():
+            if nz == z:
+                kind = ('norm', n)
+        if kind is None:
+            return None
+        eqs.append((l, z, kind, l.args[0] == '=='))
+    bad = []
+    n_feasible = 0
+    for bits in itertools.product((True, False), repeat=len(eqs)):
+        # bits[k]: the equation z_k == 0 holds
+        sub = {}
+        for (l, z, kind, _p), holds in zip(eqs, bits):
+            if holds and kind[0] == 'norm':
+                for i in range(3):
+                    sub[I.single_atom(syms['%s%d' % (kind[1], i)])] = syms['a%d' % i]
+        for (l, z, kind, _p), holds in zip(eqs, bits):
+            if holds and kind[0] == 'lin':
+                sub[I.single_atom(syms[kind[1]])] = syms['a' + kind[1][1]]
+        feasible = True
+        for (l, z, kind, _p), holds in zip(eqs, bits):
+            zs = as_rf(I.subst(z, sub)) if sub else z
+            if not holds and zs.is_zero():
+                feasible = False            # e.g. x == a but x_1 != a_1
+        if not feasible:
+            continue
+        n_feasible += 1
+        truth = {l.key(): (holds == pos) for (l, z, kind, pos), holds in zip(eqs, bits)}
+
+        def val(leaf):
+            if leaf.key() in truth:
+                return truth[leaf.key()]
+            raise AnalysisIncomplete('condition %r' % (leaf,))
+        try:
+            got = as_rf(dtab.evaluate(poly, val))
+        except AnalysisIncomplete:
+            return None
+        d = got - spec
+        d = as_rf(I.subst(d, sub)) if sub else d
+        if not d.is_zero():
+            bad.append('when %s: off by %d terms' % (', '.join('%s%s0' % (k[1] if k[0] == 'lin' else '|%s-a|^2' % k[1], '==' if h else '!=') for (_l, _z, k, _p), h in zip(eqs, bits)), len(d.num)))
+    return (not bad and n_feasible > 0, '; '.join(bad[:2]) or '%d feasible combinations of %d zero tests, each equal to the determinant under its conditions' % (n_feasible, len(eqs)))
+
+
+def gated_inner(v):
+    """sign-extraction(gated polynomial): the unary chain stripped down to the first conditional -> (gated RF, chain names) or (None, [])"""
+    cur = as_rf(v) if not isinstance(v, I.Ite) else None
+    chain = []
+    for _ in range(6):
+        at = I.single_atom(cur) if cur is not None else None
+        if at is None or at.kind != 'app':
+            return None, []
+        if at.name == 'ite':
+            return cur, chain
+        if len(at.args) == 1 and (str(at.name).startswith('call:') or at.name == 'signum'):
+            chain.append(str(at.name).rsplit('::', 1)[-1])
+            a0 = at.args[0]
+            cur = a0 if isinstance(a0, RF) else (RF.atom(a0.atom) if isinstance(a0, I.Sym) else None)
+            continue
+        return None, []
+    return None, []
+
+
+def find_poly_or_gated(v):
+    """find_poly, extended: a determinant assembled under zero tests of its own factors that equals the lifted determinant under every feasible
+    combination (gated_identity) IS that determinant -> (spec polynomial, chain)."""
+    poly, chain = find_poly(v)
+    if poly is not None and I.single_atom(poly) is None:
+        return poly, chain
+    if poly is not None:
+        at = I.single_atom(poly)
+        if at is not None and at.kind == 'app' and at.name == 'ite':
+            gi = gated_identity(poly, spec_poly())
+            if gi is not None and gi[0]:
+                return spec_poly(), chain
+    g, ch = gated_inner(v)
+    if g is not None:
+        gi = gated_identity(g, spec_poly())
+        if gi is not None and gi[0]:
+            return spec_poly(), ch
+    return poly, chain
 
 
 def compare_form(v):
@@ -143,6 +259,28 @@ def r1(ctx, F, rule, sfx):
         ctx.check(rule, 'sign-map' + sfx, flip != 0 and got == {-1: -1, 0: 0, 1: 1}, 'determinant negative/zero/positive -> %s' % [got[-1], got[0], got[1]], '-1.0 / 0.0 / +1.0', w, key_extra='signmap:%s' % [got[-1], got[0], got[1]])
         return
     poly, chain = find_poly(v)
+    if poly is None:
+        # sign-extraction(gated polynomial): strip the unary chain down to the first conditional
+        cur = as_rf(v) if not isinstance(v, I.Ite) else None
+        for _ in range(6):
+            at = I.single_atom(cur) if cur is not None else None
+            if at is None or at.kind != 'app':
+                break
+            if at.name == 'ite':
+                poly = cur
+                break
+            if len(at.args) == 1 and (str(at.name).startswith('call:') or at.name == 'signum'):
+                a0 = at.args[0]
+                cur = a0 if isinstance(a0, RF) else (RF.atom(a0.atom) if isinstance(a0, I.Sym) else None)
+                continue
+            break
+    if poly is not None and I.single_atom(poly) is not None:
+        gi = gated_identity(poly, spec_poly())
+        if gi is not None:
+            ctx.check(rule, 'determinant-identity' + sfx, gi[0], 'determinant assembled under zero tests of its factors: %s' % gi[1], 'equal to the lifted determinant under every combination of the tests', w, key_extra='det-gated')
+            other = [k for k in ip.unknown_calls if not any(x in k for x in ('signum', 'to_f64', 'sign', 'value'))]
+            ctx.check(rule, 'straight-line-ring-program' + sfx, not other, 'uninterpreted calls: %s' % (sorted(ip.unknown_calls) or 'none'), 'only the sign extraction is outside the ring', w, key_extra='calls')
+            return
     if poly is None or I.single_atom(poly) is not None:
         ctx.incomplete(rule, 'determinant' + sfx, 'returned value %s is not sign-extraction(polynomial)' % repr(v)[:160], w)
         return
@@ -222,8 +360,8 @@ def r6(ctx, F, rule, sfx):
     if cf is not None:
         poly = cf[0] if cf[0] == spec_poly() else -cf[0]
     else:
-        poly, chain = find_poly(v)
-    if poly is None:
+        poly, chain = find_poly_or_gated(v)
+    if poly is None or I.single_atom(poly) is not None:
         raise AnalysisIncomplete('predicate polynomial not determined')
     sc = scen.build_scenario(F)
     cb = F.body(sc.clip_path)
